@@ -94,6 +94,29 @@ pub fn d4_manual() -> OptionParser<D4> {
     construct!(D4 { spd, quiet, token, file }).to_options().version("7.7")
 }
 
+// ---- raw identifiers, bare `short` / `long`, single letter and multi-underscore names -----------
+
+#[derive(Debug, Clone, PartialEq, Bpaf)]
+#[bpaf(options)]
+pub struct D5 {
+    #[bpaf(short, long)]
+    r#type: u32,
+    #[bpaf(short)]
+    r#loop: bool,
+    #[bpaf(long)]
+    very_long_name_here: Option<u32>,
+    #[bpaf(short, long)]
+    z: bool,
+}
+
+pub fn d5_manual() -> OptionParser<D5> {
+    let r#type = short('t').long("type").argument::<u32>("ARG");
+    let r#loop = short('l').switch();
+    let very_long_name_here = long("very-long-name-here").argument::<u32>("ARG").optional();
+    let z = short('z').long("z").switch();
+    construct!(D5 { r#type, r#loop, very_long_name_here, z }).to_options()
+}
+
 macro_rules! dcorpus {
     ($($name:literal => $e:expr),* $(,)?) => {
         pub fn run_derived(name: &str, args: &[std::ffi::OsString]) -> Option<String> {
@@ -110,4 +133,5 @@ dcorpus!(
     "d2_derive" => d2(), "d2_manual" => d2_manual(),
     "d3_derive" => d3(), "d3_manual" => d3_manual(),
     "d4_derive" => d4(), "d4_manual" => d4_manual(),
+    "d5_derive" => d5(), "d5_manual" => d5_manual(),
 );
